@@ -203,7 +203,11 @@ func c03Expect(op string, a, b *ref.T) (Expect, string) {
 	case a.DT == ref.F32 || a.DT == ref.F64 || a.DT == ref.I32 || a.DT == ref.I64:
 		kind = MustEqual
 	}
-	return Expect{Kind: kind, Want: Exact(want), Mode: CmpIEEE, Why: "valid request"}, ""
+	mode := CmpIEEE
+	if ref.IsArith(op) {
+		mode = CmpSigned // IEEE-754 also fixes the sign of a zero result
+	}
+	return Expect{Kind: kind, Want: Exact(want), Mode: mode, Why: "valid request"}, ""
 }
 
 // c03Known recognises the recorded defect "float Div returns +Inf for every
